@@ -19,31 +19,32 @@ VARIABLES l,          \* position in Trace
           failed,     \* ... returned an error (stream closed)
           lo, hi,     \* per consumer: `returned` at joincall / `started` at joinret (-1: not yet)
           delivered, tclosed,
+          dts,        \* per consumer: the timestamps seen with the deliveries (FLV; -1 for RTP)
           stopped,    \* per consumer: a StopConsume with its real id has been called
           stopLate,   \* ... and that call began after its StartConsume had returned
           closing,    \* Stream.Close has been called
           bad         \* number of rejected events so far (only to make states distinct)
-vars == <<l, sc, started, returned, failed, lo, hi, delivered, tclosed, stopped, stopLate, closing, bad>>
+vars == <<l, sc, started, returned, failed, lo, hi, delivered, dts, tclosed, stopped, stopLate, closing, bad>>
 
-Strict == INSTANCE FanoutProp WITH Pkts <- sc.pkts, CacheGop <- sc.cachegop, ReplayVideoOnly <- FALSE
-Video  == INSTANCE FanoutProp WITH Pkts <- sc.pkts, CacheGop <- sc.cachegop, ReplayVideoOnly <- TRUE
+Strict == INSTANCE FanoutProp WITH Media <- sc.media, Pkts <- sc.pkts, CacheGop <- sc.cachegop, ReplayVideoOnly <- FALSE
+Video  == INSTANCE FanoutProp WITH Media <- sc.media, Pkts <- sc.pkts, CacheGop <- sc.cachegop, ReplayVideoOnly <- TRUE
 
 ConsOf(s) == {s.cons[i] : i \in 1..Len(s.cons)}
 SetOf(q) == {q[i] : i \in 1..Len(q)}
-Blank == [pkts |-> <<>>, cachegop |-> FALSE, cons |-> <<>>, panics |-> <<>>, stoppers |-> <<>>, name |-> "", t |-> 0, maxq |-> 1000]
+Blank == [media |-> "h264", pkts |-> <<>>, cachegop |-> FALSE, cons |-> <<>>, panics |-> <<>>, stoppers |-> <<>>, name |-> "", t |-> 0, maxq |-> 1000]
 
 Reject(clause, e, extra) ==
   /\ PrintT(<<"@BAD", ToJson([clause |-> clause, t |-> e.t, line |-> l, ev |-> e.e, info |-> extra])>>)
   /\ bad' = bad + 1
 
 Init == /\ l = 1 /\ sc = Blank /\ started = 0 /\ returned = 0 /\ failed = 0
-        /\ lo = <<>> /\ hi = <<>> /\ delivered = <<>> /\ tclosed = <<>> /\ stopped = <<>> /\ stopLate = <<>> /\ closing = FALSE /\ bad = 0
+        /\ lo = <<>> /\ hi = <<>> /\ delivered = <<>> /\ dts = <<>> /\ tclosed = <<>> /\ stopped = <<>> /\ stopLate = <<>> /\ closing = FALSE /\ bad = 0
 
 Begin(e) ==
   /\ sc' = e
   /\ started' = 0 /\ returned' = 0 /\ failed' = 0 /\ closing' = FALSE
   /\ lo' = [c \in ConsOf(e) |-> -1] /\ hi' = [c \in ConsOf(e) |-> -1]
-  /\ delivered' = [c \in ConsOf(e) |-> <<>>] /\ tclosed' = [c \in ConsOf(e) |-> 0]
+  /\ delivered' = [c \in ConsOf(e) |-> <<>>] /\ dts' = [c \in ConsOf(e) |-> <<>>] /\ tclosed' = [c \in ConsOf(e) |-> 0]
   /\ stopped' = [c \in ConsOf(e) |-> FALSE] /\ stopLate' = [c \in ConsOf(e) |-> FALSE]
   /\ bad' = bad
 
@@ -53,14 +54,18 @@ HiNow(c) == IF hi[c] >= 0 THEN hi[c] ELSE started
 Deliver(e) ==
   LET c == e.c
       d == Append(delivered[c], e.i)
+      ts == Append(dts[c], e.ts)
   IN /\ delivered' = [delivered EXCEPT ![c] = d]
+     /\ dts' = [dts EXCEPT ![c] = ts]
      /\ UNCHANGED <<sc, started, returned, failed, lo, hi, tclosed, stopped, stopLate, closing>>
      /\ IF ~e.ok THEN Reject("C01:payload-modified", e, [c |-> c, i |-> e.i])
         ELSE IF lo[c] < 0 THEN Reject("C01:delivery-before-attach", e, [c |-> c, i |-> e.i])
         ELSE IF sc.maxq < 1000
              THEN (IF Video!DeliveredOKDrops(d, lo[c], HiNow(c), started) THEN bad' = bad
                    ELSE Reject("C04:drop-not-aligned-to-key-frames", e, [c |-> c, got |-> d, lo |-> lo[c], hi |-> HiNow(c)]))
-        ELSE IF Strict!DeliveredOK(d, lo[c], HiNow(c), started) THEN bad' = bad
+        ELSE IF Strict!DeliveredOK(d, lo[c], HiNow(c), started)
+             THEN (IF Strict!DeliveredOKT(d, ts, lo[c], HiNow(c), started) THEN bad' = bad
+                   ELSE Reject("C01C02:flv-tag-timestamp", e, [c |-> c, got |-> d, ts |-> ts, lo |-> lo[c], hi |-> HiNow(c)]))
         ELSE IF Video!DeliveredOK(d, lo[c], HiNow(c), started)
              THEN Reject("C02:rtp-replay-omits-nonvideo-channel", e, [c |-> c, got |-> d])
         ELSE Reject("C01C02:order-gap-repeat", e, [c |-> c, got |-> d, lo |-> lo[c], hi |-> HiNow(c), published |-> started])
@@ -71,6 +76,7 @@ Final(e) ==
       attached == {c \in cons : hi[c] >= 0}
       parked == SetOf(e.parked)
       gone == SetOf(e.gone)
+      regd == SetOf(e.regd)
       panics == SetOf(sc.panics)
       untouched == {c \in attached : ~closing /\ ~stopped[c] /\ c \notin panics /\ failed = 0}
       published == returned
@@ -78,13 +84,13 @@ Final(e) ==
          (IF e.count < 0 THEN {"C03:count-negative"} ELSE {})
          \cup (IF e.count # e.mapped THEN {"C03:count-differs-from-registered"} ELSE {})
          \cup (IF closing /\ e.count # 0 THEN {"C03:count-nonzero-after-close"} ELSE {})
-         \cup {"C03:not-released-after-close" : c \in {c \in attached : closing /\ (tclosed[c] = 0 \/ c \notin gone)}}
-         \cup {"C03:not-released-after-stop" : c \in {c \in attached : stopLate[c] /\ (tclosed[c] = 0 \/ c \notin gone)}}
-         \cup {"C04:panicking-consumer-not-detached" : c \in {c \in attached \cap panics : delivered[c] # <<>> /\ (tclosed[c] = 0 \/ c \notin gone)}}
+         \cup {"C03:not-released-after-close" : c \in {c \in attached : closing /\ (tclosed[c] = 0 \/ c \notin gone \/ c \in regd)}}
+         \cup {"C03:not-released-after-stop" : c \in {c \in attached : stopLate[c] /\ (tclosed[c] = 0 \/ c \notin gone \/ c \in regd)}}
+         \cup {"C04:panicking-consumer-not-detached" : c \in {c \in attached \cap panics : delivered[c] # <<>> /\ (tclosed[c] = 0 \/ c \notin gone \/ c \in regd)}}
          \cup {"C03:closed-without-reason" : c \in {c \in untouched : tclosed[c] > 0 \/ c \in gone}}
          \cup {"C01:incomplete-delivery" : c \in {c \in untouched : sc.maxq >= 1000 /\
                     ~ (Strict!DeliveredAll(delivered[c], lo[c], hi[c], published) \/ Video!DeliveredAll(delivered[c], lo[c], hi[c], published))}}
-  IN /\ UNCHANGED <<sc, started, returned, failed, lo, hi, delivered, tclosed, stopped, stopLate, closing>>
+  IN /\ UNCHANGED <<sc, started, returned, failed, lo, hi, delivered, dts, tclosed, stopped, stopLate, closing>>
      /\ IF problems = {} THEN bad' = bad
         ELSE Reject("final", e, [problems |-> problems, count |-> e.count, mapped |-> e.mapped, parked |-> e.parked,
                                  gone |-> e.gone, tclosed |-> tclosed, delivered |-> delivered])
@@ -94,20 +100,24 @@ Consume ==
   /\ l' = l + 1
   /\ LET e == Trace[l] IN
      CASE e.e = "begin" -> Begin(e)
-       [] e.e = "end" -> UNCHANGED <<sc, started, returned, failed, lo, hi, delivered, tclosed, stopped, stopLate, closing, bad>>
-       [] e.e = "pubcall" -> started' = started + 1 /\ UNCHANGED <<sc, returned, failed, lo, hi, delivered, tclosed, stopped, stopLate, closing, bad>>
+       [] e.e = "end" -> UNCHANGED <<sc, started, returned, failed, lo, hi, delivered, dts, tclosed, stopped, stopLate, closing, bad>>
+       [] e.e = "pubcall" -> started' = started + 1 /\ UNCHANGED <<sc, returned, failed, lo, hi, delivered, dts, tclosed, stopped, stopLate, closing, bad>>
        [] e.e = "pubret" -> /\ (IF e.err THEN failed' = failed + 1 /\ returned' = returned ELSE returned' = returned + 1 /\ failed' = failed)
-                            /\ UNCHANGED <<sc, started, lo, hi, delivered, tclosed, stopped, stopLate, closing, bad>>
-       [] e.e = "joincall" -> lo' = [lo EXCEPT ![e.c] = returned] /\ UNCHANGED <<sc, started, returned, failed, hi, delivered, tclosed, stopped, stopLate, closing, bad>>
-       [] e.e = "joinret" -> hi' = [hi EXCEPT ![e.c] = started] /\ UNCHANGED <<sc, started, returned, failed, lo, delivered, tclosed, stopped, stopLate, closing, bad>>
+                            /\ UNCHANGED <<sc, started, lo, hi, delivered, dts, tclosed, stopped, stopLate, closing, bad>>
+       [] e.e = "joincall" -> lo' = [lo EXCEPT ![e.c] = returned] /\ UNCHANGED <<sc, started, returned, failed, hi, delivered, dts, tclosed, stopped, stopLate, closing, bad>>
+       [] e.e = "joinret" -> hi' = [hi EXCEPT ![e.c] = started] /\ UNCHANGED <<sc, started, returned, failed, lo, delivered, dts, tclosed, stopped, stopLate, closing, bad>>
        [] e.e = "stopcall" -> /\ stopped' = [stopped EXCEPT ![e.c] = @ \/ e.known]
                               /\ stopLate' = [stopLate EXCEPT ![e.c] = @ \/ (e.known /\ hi[e.c] >= 0)]
-                              /\ UNCHANGED <<sc, started, returned, failed, lo, hi, delivered, tclosed, closing, bad>>
-       [] e.e = "stopret" -> UNCHANGED <<sc, started, returned, failed, lo, hi, delivered, tclosed, stopped, stopLate, closing, bad>>
-       [] e.e = "closecall" -> closing' = TRUE /\ UNCHANGED <<sc, started, returned, failed, lo, hi, delivered, tclosed, stopped, stopLate, bad>>
-       [] e.e = "closeret" -> UNCHANGED <<sc, started, returned, failed, lo, hi, delivered, tclosed, stopped, stopLate, closing, bad>>
-       [] e.e = "tclose" -> tclosed' = [tclosed EXCEPT ![e.c] = @ + 1] /\ UNCHANGED <<sc, started, returned, failed, lo, hi, delivered, stopped, stopLate, closing, bad>>
-       [] e.e = "qlen" -> /\ UNCHANGED <<sc, started, returned, failed, lo, hi, delivered, tclosed, stopped, stopLate, closing>>
+                              /\ UNCHANGED <<sc, started, returned, failed, lo, hi, delivered, dts, tclosed, closing, bad>>
+       [] e.e = "stopret" -> UNCHANGED <<sc, started, returned, failed, lo, hi, delivered, dts, tclosed, stopped, stopLate, closing, bad>>
+       [] e.e = "closecall" -> closing' = TRUE /\ UNCHANGED <<sc, started, returned, failed, lo, hi, delivered, dts, tclosed, stopped, stopLate, bad>>
+       [] e.e = "replacecall" -> UNCHANGED <<sc, started, returned, failed, lo, hi, delivered, dts, tclosed, stopped, stopLate, closing, bad>>
+       [] e.e = "replaceret" -> closing' = (closing \/ e.closed) /\ UNCHANGED <<sc, started, returned, failed, lo, hi, delivered, dts, tclosed, stopped, stopLate, bad>>
+       [] e.e = "crash" -> /\ UNCHANGED <<sc, started, returned, failed, lo, hi, delivered, dts, tclosed, stopped, stopLate, closing>>
+                           /\ Reject(IF e.g = "pub" THEN "C04:publisher-crashed" ELSE "C03:api-call-panicked", e, [proc |-> e.g, what |-> e.what])
+       [] e.e = "closeret" -> UNCHANGED <<sc, started, returned, failed, lo, hi, delivered, dts, tclosed, stopped, stopLate, closing, bad>>
+       [] e.e = "tclose" -> tclosed' = [tclosed EXCEPT ![e.c] = @ + 1] /\ UNCHANGED <<sc, started, returned, failed, lo, hi, delivered, dts, stopped, stopLate, closing, bad>>
+       [] e.e = "qlen" -> /\ UNCHANGED <<sc, started, returned, failed, lo, hi, delivered, dts, tclosed, stopped, stopLate, closing>>
                           /\ IF Video!BacklogOK(e.n, sc.maxq, 2 + Video!G, started) THEN bad' = bad
                              ELSE Reject("C04:backlog-exceeds-limit-plus-gop-plus-replay", e, [c |-> e.c, n |-> e.n])
        [] e.e = "deliver" -> Deliver(e)
